@@ -19,7 +19,10 @@ type proc struct {
 	log   *os.File
 	// how many decls/defs have been sent
 	declSent, defSent int
-	dead              bool
+	dead, killed      bool
+	// lines to the solver go through a queue drained by a writer goroutine: a solver that is busy (a get-value
+	// that never ends, a check-sat that ignores its time limit) must not block the engine in a pipe write
+	outq chan string
 }
 
 func solverCmd(kind string, tmo int) (string, []string) {
@@ -45,7 +48,17 @@ func startProc(kind string, tmo int) *proc {
 	if err := cmd.Start(); err != nil {
 		panic(err)
 	}
-	p := &proc{kind: kind, cmd: cmd, in: in, lines: make(chan string, 1024)}
+	p := &proc{kind: kind, cmd: cmd, in: in, lines: make(chan string, 1024), outq: make(chan string, 1<<16)}
+	go func() {
+		for l := range p.outq {
+			if _, err := io.WriteString(in, l+"\n"); err != nil {
+				p.dead = true
+				for range p.outq { // drain
+				}
+				return
+			}
+		}
+	}()
 	go func() {
 		r := bufio.NewReaderSize(outp, 1<<20)
 		for {
@@ -78,12 +91,22 @@ func (p *proc) send(l string) {
 	if p.log != nil {
 		fmt.Fprintln(p.log, l)
 	}
-	if _, err := io.WriteString(p.in, l+"\n"); err != nil {
-		p.dead = true
+	if p.dead {
+		return
+	}
+	select {
+	case p.outq <- l:
+	case <-time.After(5 * time.Minute):
+		// the queue (65536 lines) has not moved for five minutes: the solver is stuck
+		p.kill()
 	}
 }
 func (p *proc) kill() {
+	if p.dead && p.killed {
+		return
+	}
 	p.dead = true
+	p.killed = true
 	p.in.Close()
 	if p.cmd.Process != nil {
 		p.cmd.Process.Kill()
@@ -271,7 +294,44 @@ func (s *Solver) CheckWith(t Term) string {
 func (s *Solver) GetValues(ts []Term) ([]string, error) {
 	t0 := time.Now()
 	defer func() { s.Time += time.Since(t0) }()
-	p := s.last
+	out, err := s.getValuesOn(s.last, ts)
+	if err == nil {
+		return out, nil
+	}
+	// the process that said sat cannot produce the values (model evaluation that never ends, solver error): it is
+	// killed - it may still be busy - and the other solvers are asked for a model of the same stack
+	failed := s.last
+	failed.kill()
+	if failed == s.main {
+		s.restartMain()
+	}
+	for _, k := range s.altOrder {
+		p := s.alts[k]
+		if p == failed {
+			continue
+		}
+		if p == nil || p.dead {
+			p = startProc(k, s.tmo)
+			s.alts[k] = p
+		}
+		s.resync(p)
+		s.Fallbacks++
+		if r := checkOn(p, s.tmo); r != "sat" {
+			if r == "hang" {
+				p.kill()
+			}
+			continue
+		}
+		if out, err2 := s.getValuesOn(p, ts); err2 == nil {
+			s.last = p
+			return out, nil
+		}
+		p.kill()
+	}
+	return nil, err
+}
+
+func (s *Solver) getValuesOn(p *proc, ts []Term) ([]string, error) {
 	out := make([]string, 0, len(ts))
 	const chunk = 256
 	for i := 0; i < len(ts); i += chunk {
@@ -296,6 +356,7 @@ func (s *Solver) GetValues(ts []Term) ([]string, error) {
 	}
 	return out, nil
 }
+
 
 func readSexp(p *proc, d time.Duration) (string, error) {
 	depth := 0
